@@ -27,6 +27,7 @@ type Ctx struct {
 
 	transparentCache map[*ssa.Function]bool
 	structFam        map[*ssa.Function]bool
+	rolesResolved    bool
 }
 
 func NewCtx(p *core.Prog, r *core.Report, graph, tier string) *Ctx {
